@@ -66,15 +66,28 @@ IsAttrChar(x) == (x >= 48 /\ x <= 57) \/ (x >= 65 /\ x <= 90) \/ (x >= 97 /\ x <
 Pct(x) == IF IsAttrChar(x) THEN <<x>> ELSE <<37, HexD(x \div 16), HexD(x % 16)>>
 PctSeq(s) == Concat([i \in 1..Len(s) |-> Pct(s[i])])
 
-(* text that may be written between double quotes as it is *)
-QuotableText(s) == \A i \in 1..Len(s) : /\ s[i] \notin {34, 92, 13, 10, 0}
-                                        /\ s[i] < 1114112 /\ ~(s[i] >= 55296 /\ s[i] <= 57343)
+(* Quoted strings (RFC 2183 / RFC 822): the value goes between double quotes, a double quote and a
+   backslash inside it are written \" and \\; nothing else is escaped, so a ";" may occur inside the
+   quotes and does not end the parameter.  Quote / Unquote are inverse (QuotedRoundTrip).  A text
+   ending in a backslash is excluded: the closing quote after an escaped backslash is where the
+   parameter splitter falcon inherited from cgi.parse_header miscounts (recorded observation). *)
+QuotableText(s) == /\ \A i \in 1..Len(s) : /\ s[i] \notin {13, 10, 0}
+                                           /\ s[i] < 1114112 /\ ~(s[i] >= 55296 /\ s[i] <= 57343)
+                   /\ (Len(s) > 0 => s[Len(s)] # 92)
+Quote(s) == IF \A i \in 1..Len(s) : s[i] \notin {34, 92} THEN s
+            ELSE Concat([i \in 1..Len(s) |-> IF s[i] \in {34, 92} THEN <<92, s[i]>> ELSE <<s[i]>>])
+(* a backslash opens an escape iff an even number of backslashes stands immediately before it *)
+BackslashRun(q, i) == LET J == {j \in 0..(i - 1) : \A m \in (i - j)..(i - 1) : q[m] = 92}
+                      IN  CHOOSE j \in J : \A k \in J : k <= j
+Unquote(q) == LET K == SelectSeq([i \in 1..Len(q) |-> i], LAMBDA i : ~(q[i] = 92 /\ BackslashRun(q, i) % 2 = 0))
+              IN  [k \in 1..Len(K) |-> q[K[k]]]
+
 PartOk(p) == /\ QuotableText(p.name) /\ QuotableText(p.fname)
              /\ (p.fkind = 2 => p.fname # <<>>)
              /\ (p.fkind = 0 => p.fname = <<>>)
 
-EncDisp(p) == V_FD \o Utf8Seq(p.name) \o QUOTE
-              \o (CASE p.fkind = 1 -> V_FILE \o Utf8Seq(p.fname) \o QUOTE
+EncDisp(p) == V_FD \o Utf8Seq(Quote(p.name)) \o QUOTE
+              \o (CASE p.fkind = 1 -> V_FILE \o Utf8Seq(Quote(p.fname)) \o QUOTE
                     [] p.fkind = 2 -> V_STAR \o PctSeq(Utf8Seq(p.fname))
                     [] OTHER -> <<>>)
 
@@ -98,8 +111,13 @@ Encode(form, e) ==
 
 (* the encoder's precondition (RFC 2046, 5.1): the boundary delimiter occurs nowhere in the
    encapsulated data, and the dash-boundary does not occur in the preamble *)
+(* RFC 2046, 5.1: 1..70 characters of  DIGIT / ALPHA / ' ( ) + _ , - . / : = ?  and space, not ending with
+   a space (a leading space is legal; such a boundary travels quoted in Content-Type) *)
+BChar(c) == (c >= 48 /\ c <= 57) \/ (c >= 65 /\ c <= 90) \/ (c >= 97 /\ c <= 122)
+            \/ c \in {39, 40, 41, 43, 95, 44, 45, 46, 47, 58, 61, 63, 32}
 Encodable(form, e) ==
     /\ Len(e.b) >= 1 /\ Len(e.b) <= 70
+    /\ (\A i \in 1..Len(e.b) : BChar(e.b[i])) /\ e.b[Len(e.b)] # 32
     /\ FindFrom(Preamble(e) \o DashB(e.b), DashB(e.b), 0) = Len(Preamble(e))
     /\ \A i \in 1..Len(form) :
          /\ PartOk(form[i])
@@ -247,7 +265,7 @@ ExtFilename(x) ==
                [] OTHER -> UNKNOWN
 
 V_STARKEY == <<59, 32, 102, 105, 108, 101, 110, 97, 109, 101, 42, 61>>            \* ; filename*=
-ExtPrefix(p) == V_FD \o Utf8Seq(p.name) \o QUOTE \o V_STARKEY
+ExtPrefix(p) == V_FD \o Utf8Seq(Quote(p.name)) \o QUOTE \o V_STARKEY
 
 FieldsOf(form, hdr) ==
     LET v == HeaderVal(hdr, H_DISP_LC)
@@ -444,6 +462,11 @@ ParseOfEncodeIsForm ==
              /\ last.fname = FNameOf(form[yielded])
              /\ last.ctype = (IF form[yielded].ctype = NONE THEN T_PLAIN ELSE form[yielded].ctype)
         /\ last.out = "end" => (yielded = Len(form) /\ FirstStop = 0)
+
+(* the quoted-string encoding of every name / file name of the form is read back as that text *)
+QuotedRoundTrip ==
+    \A i \in 1..Len(form) : /\ Unquote(Quote(form[i].name)) = form[i].name
+                            /\ Unquote(Quote(form[i].fname)) = form[i].fname
 
 (* limits are exact: the iteration fails at part i iff i is the first part whose header block is
    longer than the limit or whose index exceeds the part count (0 = no limit).  "If": a step
